@@ -160,4 +160,22 @@ int SkipsRead(FILE* f) {
   return n;
 }
 
+// --- TB3 control: `pos - 3` used as a position although pos may be 1 or 2 -------------------------
+std::string UnderflowingPosition(std::string text, const std::string& name) {
+  size_t pos = text.find(name);
+  if (pos == 0 || pos == std::string::npos || text.find("-f ") != pos - 3)
+    return text;
+  text.replace(pos - 3, name.size() + 3, "");
+  return text;
+}
+
+// --- TB3 control (negative) ------------------------------------------------------------------------
+std::string GuardedPosition(std::string text, const std::string& name) {
+  size_t pos = text.find(name);
+  if (pos == std::string::npos || pos < 3 || text.compare(pos - 3, 3, "-f ") != 0)
+    return text;
+  text.replace(pos - 3, name.size() + 3, "");
+  return text;
+}
+
 }  // namespace nvctl
